@@ -24,6 +24,7 @@ fn collapse(ctx: &Ctx, r: &mut Report) {
 		let class = (k + ctx.seed as usize) % 5;
 		let n = (7 * p + 13).min(12000).max(40);
 		let cs = gen::candles(class, ctx.seed ^ (k as u64) << 8, n, 10);
+		r.case(&[17, p as u64, crate::reg::candles_hash(&cs)]);
 		let Ok(Ok(mut m)) = guard(|| CollapseTimeframe::<Candle>::new(p, &cs[0])) else {
 			r.violate("C17|CollapseTimeframe|constructor", "constructor failed for a positive period", || json!({"period": p}));
 			continue;
@@ -95,6 +96,7 @@ fn heikin_valid(ctx: &Ctx, r: &mut Report) {
 		}
 		let cs = gen::candles((k % 6) as usize, ctx.seed ^ k << 5, 500, 10);
 		let Ok(Ok(mut m)) = guard(|| HeikinAshi::new((), &cs[0])) else { continue };
+		r.case(&[171, crate::reg::candles_hash(&cs)]);
 		let mut ref_open: V = (cs[0].open + cs[0].high + cs[0].low + cs[0].close) * 0.25;
 		for (i, c) in cs.iter().enumerate() {
 			let Ok(o) = guard(|| m.next(c)) else {
@@ -150,6 +152,7 @@ struct Brick {
 /// one Renko scenario: brick size, source and a price path generated from the model's own thresholds
 fn renko_case(b: f64, source: Source, seed: u64, steps: usize, r: &mut Report) {
 	let mut rng = Rng::new(seed);
+	r.case(&[172, b.to_bits(), source as u64, seed, steps as u64]);
 	let p0 = gen::q(*rng.pick(&[100.0, 1.0, 0.01234, 56789.0, 3.0]));
 	let mk = |p: f64, vol: f64| -> Candle {
 		// a candle whose `source` value is p (for the price-like sources)
